@@ -430,6 +430,10 @@ func runLockRT(ctx *Ctx) {
 		ctx.R.Op(fmt.Sprintf("scenario handover-%v", dead), "ok")
 		if rh.bad != "" {
 			ctx.R.Quiet("mon C05-lease-kept-while-held", rh.name+": "+rh.bad)
+			if strings.Contains(rh.bad, "a third Locker acquired") {
+				// … which is two callers inside the lock at once, with every storage call answered and every timer on time
+				ctx.R.Quiet("mon C01-at-most-one-holder", rh.name+": "+rh.bad)
+			}
 		}
 	}
 	// Unlock while a renewal is in flight + transient failure of that call + a new holder
@@ -457,6 +461,9 @@ func runLockRT(ctx *Ctx) {
 	ctx.R.Comment(rs.name + ": " + rs.info)
 	if rs.bad != "" {
 		ctx.R.Quiet("mon C05-lease-kept-while-held", rs.name+": "+rs.bad)
+		if strings.Contains(rs.bad, "acquired the lock") {
+			ctx.R.Quiet("mon C01-at-most-one-holder", rs.name+": "+rs.bad)
+		}
 	}
 	// Unlock + Lock on the same Locker while the answer of an applied renewal is on the way
 	rr := rtRelockScenario(lease)
@@ -474,6 +481,9 @@ func runLockRT(ctx *Ctx) {
 	ctx.R.Comment(rr.name + ": " + rr.info)
 	if rr.bad != "" {
 		ctx.R.Quiet("mon C05-lease-kept-while-held", rr.name+": "+rr.bad)
+		if strings.Contains(rr.bad, "acquired the lock") {
+			ctx.R.Quiet("mon C01-at-most-one-holder", rr.name+": "+rr.bad)
+		}
 	}
 	ctx.R.Case("realtime")
 	ctx.R.Nontrivial("adopt")
